@@ -19,6 +19,11 @@ func init() {
 		&slip.FuncDoc{
 			Name: "/",
 			Args: []*slip.DocArg{
+				{
+					Name: "number",
+					Type: "number",
+					Text: "The number to divide, or to take the reciprocal of when it is the only argument.",
+				},
 				{Name: "&rest"},
 				{
 					Name: "numbers",
